@@ -165,7 +165,8 @@ PROPS = {
             # the same buckets with undecodable blobs under the race detector: a data race between the downloaders'
             # corrupt-blob bookkeeping and the listing pass ends the process ("concurrent map read and map write")
             T("TestC16Receiver", "recv", 120, 8000, shards=16, qshards=4, race=True, gomaxprocs=[4, 2, 8, 16]),
-            T("TestC08OwnCorruptEnum", "fleet", 1, 1, enum=True, qshards=4, shards=8, procs=4),
+            # every blob under the instance's own name is undecodable: the freely running Sync gets past them and publishes
+            T("TestC08OwnCorrupt", "fleet", 1, 1, enum=True),
         ],
         "fuzz": [{"pkg": "codec", "name": "FuzzUnmarshal", "time": "120s", "timeout": 600},
                  {"pkg": "codec", "name": "FuzzLoadData", "time": "120s", "timeout": 600}],
